@@ -50,6 +50,7 @@ type Contract struct {
 	Requires []*Clause
 	Ensures  []*Clause
 	Modifies []string
+	Sets     []*Clause         // ghost assignments performed at every return: sets NAME = expr
 	Loops    map[int][]*Clause // invariants and lets, by loop ordinal
 	Walks    map[int][]*Clause
 	File     string
@@ -81,7 +82,7 @@ type Contracts struct {
 }
 
 var clauseKeywords = map[string]bool{"func": true, "requires": true, "ensures": true, "modifies": true, "loop": true, "walk": true,
-	"inline": true, "trusted-ensures": true, "spec": true, "lemma": true, "trusted": true, "package": true}
+	"inline": true, "sets": true, "trusted-ensures": true, "spec": true, "lemma": true, "trusted": true, "package": true}
 
 var labelRe = regexp.MustCompile(`^\[([A-Z0-9, ]+)\]\s*`)
 var nameRe = regexp.MustCompile(`^([A-Za-z][A-Za-z0-9_.\-]*):\s+`)
@@ -322,6 +323,17 @@ func (cs *Contracts) parseFile(file, pkgPath string, data string) error {
 			for _, p := range c.Labels {
 				cur.Props[p] = true
 			}
+		case "sets":
+			eq := strings.Index(rest, "=")
+			if cur == nil || eq < 0 {
+				return fmt.Errorf("%s:%d: sets needs NAME = expr inside a func", l.file, l.line)
+			}
+			c, err := mk("sets", strings.TrimSpace(rest[eq+1:]))
+			if err != nil {
+				return err
+			}
+			c.LetVar = strings.TrimSpace(rest[:eq])
+			cur.Sets = append(cur.Sets, c)
 		case "modifies":
 			for _, m := range strings.Split(rest, ",") {
 				if m = strings.TrimSpace(m); m != "" {
